@@ -68,6 +68,11 @@ def _volumes(rng, quick):
     out.append((vol([40, 5, 5], "uint8", iso), False, "image", "raw"))        # one scale, 1000 B
     out.append((vol([41, 5, 5], "uint8", iso), True, "image", "raw"))         # 1025 B -> "1.0 kiB"
     out.append((vol([300, 2, 2, 2], "uint16", aniso), False, "image", "raw"))
+    # strongly anisotropic voxels: the chunk sizes differ between the axes ([128,128,16]-like),
+    # and the volume spans several chunks along the thick axis only
+    out.append((vol([6, 5, 40], "uint8", [1.0, 1.0, 8.0]), False, "image", "raw"))
+    out.append((vol([5, 70, 4], "uint16", [1.0, 4.0, 1.0]), False, "image", "raw"))
+    out.append((vol([36, 3, 4], "uint8", [8.0, 1.0, 2.0]), False, "image", "raw"))
     if not quick:
         for _ in range(60):
             dt = rng.choice(["uint8", "uint16", "uint32", "uint64", "float32"])
